@@ -488,7 +488,7 @@ where
                 let _ = s.send(());
             }
             if self.buf.is_empty() {
-                match self.rx.recv_timeout(Duration::from_secs(20)) {
+                match self.rx.recv_timeout(Duration::from_secs(6)) {
                     Ok(v) => self.buf = v,
                     Err(_) => return Ok(0),
                 }
@@ -512,7 +512,7 @@ where
     });
     let tb = tx_res;
     std::thread::spawn(move || {
-        let _ = rx_started.recv_timeout(Duration::from_secs(5));
+        let _ = rx_started.recv_timeout(Duration::from_secs(3));
         let mut sl: &[u8] = &b[..];
         let before = sl.len();
         let r = T::deserialize(&mut sl, c);
@@ -524,7 +524,7 @@ where
     let mut rb = json!(false);
     let mut timeout = false;
     for _ in 0..2 {
-        match rx_res.recv_timeout(Duration::from_secs(8)) {
+        match rx_res.recv_timeout(Duration::from_secs(4)) {
             Ok(('a', v)) => ra = v,
             Ok((_, v)) => rb = v,
             Err(_) => { timeout = true; break; }
